@@ -243,7 +243,9 @@ def fs_stream(ctx, jinja2, ModuleLoader):
                 s = ig.tset()
                 kind, srcs = "imp", IG.sources(s)
             names = list(srcs)
-            srcs = {n: respell(ctx.rng, src, names) for n, src in srcs.items()}
+            # every template also uses an ENVIRONMENT global (range): a template reached through a non-normal spelling must
+            # still be created with the environment's globals
+            srcs = {n: respell(ctx.rng, src, names) + "{{ range(2)|list|length }}" for n, src in srcs.items()}
             sdir = os.path.join(root, f"s{idx}", "src")
             os.makedirs(sdir, exist_ok=True)
             for n, src in srcs.items():
@@ -253,10 +255,21 @@ def fs_stream(ctx, jinja2, ModuleLoader):
             target = os.path.join(root, f"s{idx}", "out" + (".zip" if mode else ""))
             try:
                 fs_env = jinja2.Environment(loader=jinja2.FileSystemLoader(sdir))
-                ref = render(jinja2, kind, s, srcs, jinja2.FileSystemLoader(sdir))
+                def direct(loader):
+                    # each template fetched directly under non-normal spellings and rendered with its own context
+                    env = jinja2.Environment(loader=loader)
+                    res = []
+                    for n in sorted(srcs):
+                        for sp in ("./%s", "/%s", ".//%s"):
+                            try:
+                                res.append(env.get_template(sp % n).render(x="X"))
+                            except Exception as e:  # noqa
+                                res.append("X:" + type(e).__name__)
+                    return " ## " + " | ".join(res)
+                ref = render(jinja2, kind, s, srcs, jinja2.FileSystemLoader(sdir)) + direct(jinja2.FileSystemLoader(sdir))
                 try:
                     fs_env.compile_templates(target, zip=mode, log_function=lambda x: None, ignore_errors=False)
-                    got = render(jinja2, kind, s, srcs, ModuleLoader(target))
+                    got = render(jinja2, kind, s, srcs, ModuleLoader(target)) + direct(ModuleLoader(target))
                 except Exception as e:  # noqa
                     got = "X:compile_templates/ModuleLoader:" + type(e).__name__ + ":" + str(e)[:80]
             finally:
